@@ -443,7 +443,8 @@ def replay(case):
         for part in sorted(set(ref) | set(got)):
             if ref.get(part) != got.get(part):
                 for fld in diff_fields(part, ref.get(part), got.get(part)):
-                    out.append(("%s:%s:%s" % (dim, part, fld), "differs"))
+                    stream = "snapshot" if part.startswith("snap:") else (part.split(":", 1)[1] if ":" in part else part)
+                    out.append(("%s:%s:%s" % (dim, stream, fld), "differs"))
         return out
     finally:
         shutil.rmtree(d, ignore_errors=True)
